@@ -6,8 +6,6 @@ sys.path.insert(0, HERE)
 from vx import props as P
 
 NA = {
-    "C01": "end-to-end statement about several nodes exchanging datagrams under all interleavings over 24 h of virtual time: no single call or data structure carries it, so no function contract can express it (its per-node ingredients are claimed as C05, C06, C07, C03)",
-    "C02": "convergence of an iterative lookup over all topologies and arrival orders is a protocol-level inductive invariant over network state that is not program state; the functions involved (generic-iterator rounds in lookup.rs) are also outside Verus' subset and Kani has no unbounded route for them",
     "C14": "the failing behaviour (allocation of a declared length, recursion depth, abort) lives inside serde_bencode and outside both verifiers' memory model (allocation always succeeds in CBMC and Verus); 'keeps serving after any datagram sequence' is liveness of the event loop",
 }
 NOT_REACHED = "claimed in DESIGN.md but its unit is not built yet in this tree (contract-based check planned; never claimed in weakened form)"
